@@ -8,14 +8,18 @@ STORE_RULES = [
 ]
 
 
-def H(name, tier="quick", timeout=900, covers=(), rules=(), mem_gb=14, fsens=2048, note=""):
+def H(name, tier="quick", timeout=900, covers=(), rules=(), mem_gb=14, fsens=2048, note="", crate=None):
     return dict(name=name, tier=tier, timeout=timeout, covers=list(covers), rules=list(rules), mem_gb=mem_gb,
-                fsens=fsens, note=note)
+                fsens=fsens, note=note, crate=crate)
 
 
 # recursion of the two parser entry points is unwound 3 times in the whole-function harnesses (inputs
 # are assumed to contain at most one '*', so depth 2 is never exceeded: the unwinding assertion checks it)
 REC_RULES = [(r"^net::frame::Frame::(check|parse)(_nested)?$", None, 3)]
+
+# the drop glue of the recursive `Frame` type: unwound 3 times (frames in these harnesses are at most an
+# array of non-array items; the unwinding assertion checks that nothing deeper is dropped)
+DROP_RULES = [(r"^std::ptr::drop_glue::<net::frame::Frame>$", None, 3)]
 
 NET_STUBS = [
     "alloc::fmt::format -> empty String (error-message text only)",
@@ -53,11 +57,43 @@ PROPS = {
             "Kani models the dev profile (overflow checks on); release-profile wrap-around is observed by the native replay",
         ],
     ),
+    "C08": dict(
+        crate="net",
+        title="RESP encoding and decoding round-trip, independent of stream chunking (decoder side; encoder validated natively)",
+        harnesses=[
+            H("c08_null", timeout=600, rules=REC_RULES),
+            H("c08_simple_0", timeout=900, rules=REC_RULES),
+            H("c08_simple_2", timeout=900, rules=REC_RULES),
+            H("c08_error_3", timeout=900, rules=REC_RULES),
+            H("c08_bulk_0", timeout=900, rules=REC_RULES),
+            H("c08_bulk_2", timeout=900, rules=REC_RULES),
+            H("c08_bulk_4", timeout=900, rules=REC_RULES),
+            H("c08_integer_1", timeout=900, rules=REC_RULES),
+            H("c08_integer_4", timeout=900, rules=REC_RULES),
+            H("c08_integer_7", timeout=1200, rules=REC_RULES),
+            H("c08_integer_limits", timeout=1200, rules=REC_RULES, covers=["i64::MIN round-trips", "i64::MAX round-trips"]),
+            H("c08_array_bulk2", timeout=1500, rules=REC_RULES),
+            H("c08_array_mixed", timeout=1500, rules=REC_RULES),
+        ],
+        bounds={
+            "frames": "SimpleString/Error of 0,2,3 symbolic ASCII bytes without CR/LF; BulkString of 0,2,4 arbitrary symbolic bytes; Null; Integer as canonical digit string of 1,4,7 symbolic digits with symbolic sign, plus sign x last digit around both i64 limits; arrays [bulk(1),bulk(2)], [int,null,simple], []",
+            "stream": "(1) the encoding followed by 3 SYMBOLIC bytes: check accepts exactly the encoding's length and parse returns the frame at that position; (2) every strict prefix of >= 1 byte is Incomplete (cut points enumerated in the harness; not for arrays, see DESIGN.md 0.2/7; the empty prefix is c07_small_readers)",
+            "outside": "the encoder itself (Connection::write_frame: async/tokio; the reference encoder of the harness is compared natively with it, not solver-decided); Connection::read_frame's loop and its EOF distinction; prefixes of arrays; non-ASCII simple strings; longer payloads; nested arrays (write_frame refuses them)",
+        },
+        assumptions=NET_STUBS + [
+            "bytes::{Bytes,Buf} are the inline-array model of models/bytes",
+            "the reference encoder of the harness equals Connection::write_frame (trusted base; checked natively by the repository's own write_frame test cases against the same byte strings)",
+            "recursion of Frame::check/parse unwound 3 times (the unwinding assertion proves deeper recursion unreachable on these inputs)",
+        ],
+    ),
     "C06": dict(
         crate="net",
         title="Over the network SET/GET/DEL answer exactly as the map model, in order (REDUCED: command gate only)",
         harnesses=[
-            H("c06_gate", timeout=1800, covers=["a SET passed the gate", "a DEL passed the gate", "a non-UTF-8 key was refused"]),
+            H("c06_gate", timeout=1800, rules=DROP_RULES, covers=["a SET passed the gate", "a DEL passed the gate", "a non-UTF-8 key was refused"]),
+            H("c06_decode_get", timeout=1800, rules=REC_RULES + DROP_RULES),
+            H("c06_decode_set", timeout=1800, rules=REC_RULES + DROP_RULES),
+            H("c06_decode_del2", timeout=1800, rules=REC_RULES + DROP_RULES),
         ],
         bounds={
             "gate": "Command::try_from over an array of <= 3 elements (bulk strings of <= 3 arbitrary bytes or a non-bulk element) or a non-array frame: Ok ONLY for exact upper-case name, exact arity, UTF-8 keys",
@@ -79,6 +115,11 @@ STORE_ASSUME = [
 SHAPES_NOTE = "operation shapes are concrete and enumerated (DESIGN.md section 9 (b)): S1 tombstone-on-disk + rollover on every write + reopen; S2 overwrite/delete/absent-delete/merge of the active file/write/reopen via hint; S3 older live file + newer tombstone-only file, merge selected by fragmentation 0.4, reopen; S4 merge output with hint on disk + older file, merge rolling over into several outputs, reopen; S5 selection by dead bytes, two merges, reopen; S6 older all-dead file + newer file with the tombstone selected by dead bytes, reopen. Symbolic within a shape: every value byte"
 
 
+# L level: the codec contract that every store-level harness assumes, decided for the REAL bincode on the
+# repository's own entry types (shadow-log: real bincode, real std::io).
+CODEC_CONTRACT = [H("l_codec_hint_entry", crate="log", timeout=600), H("l_codec_data_entry", crate="log", timeout=1500)]
+
+
 def _kills(prefix, ks, quick=()):
     return [H("%s_k%02d" % (prefix, k), tier=("quick" if k in quick else "thorough"), timeout=1800, rules=STORE_RULES) for k in ks]
 
@@ -90,7 +131,7 @@ def _shapes(prefix, which, tier_of=lambda i: "quick", timeout=1500, covers=None)
 
 PROPS.update({
     "C01": dict(crate="store", title="The store behaves as a key-value map for every operation sequence",
-                harnesses=_shapes("c01", [1, 2, 3, 4, 5, 6], tier_of=lambda i: "quick" if i in (1, 2, 3) else "thorough", covers={1: ["three rollovers"], 2: ["the merge wrote a hint entry"]}),
+                harnesses=_shapes("c01", [1, 2, 3, 4, 5, 6], tier_of=lambda i: "quick" if i in (1, 2, 3) else "thorough", covers={1: ["three rollovers"], 2: ["the merge wrote a hint entry"]}) + CODEC_CONTRACT,
                 bounds={"shapes": SHAPES_NOTE, "outside": "longer histories, more keys, longer keys/values, entries larger than the write buffer, real DashMap/LRU/mmap implementations, real bincode layout"},
                 assumptions=STORE_ASSUME),
     "C02": dict(crate="store", title="Closing and reopening a store preserves exactly its contents, deletions included",
